@@ -21,6 +21,7 @@
 From RichModel Require Import Prelude Color Style SpecColor TermSgr Ansi SpecAnsi.
 From RichGen Require Import AnsiFacts.
 From RichProofs Require Import TermSgrP AnsiP AnsiP2 AnsiP3 AnsiP4.
+From RichProofs.bridge Require BridgeColor.   (* tie 1 (T2): Color.get_ansi_codes regenerated from rich/color.py *)
 
 (* ------------------------------------------------------------------ example inputs *)
 Definition ex_red : color := from_rgb 255 0 0.
